@@ -52,6 +52,9 @@ def decorate(plan, rng):
         q.trait_vis = rng.choice(["#[allow(dead_code)] pub ", "#[doc = \" doc\"] pub ", "pub(crate) ", ""])
     if rng.random() < 0.3:
         q.trait_where = " where Self: Sized"
+    if rng.random() < 0.4:
+        # inner attributes of the trait body are part of `ItemTrait::attrs` too (seeded change C08f)
+        q.trait_inner = rng.choice(['#![allow(non_snake_case)] ', '#![doc = " inner doc"] ', '#![allow(dead_code)] #![doc = " two"] '])
     return q
 
 
